@@ -21,6 +21,9 @@ const SERVER_PEM: &str = include_str!("../../../fixtures/pki/server.pem");
 const SERVER_KEY: &str = include_str!("../../../fixtures/pki/server.key");
 const CLIENT1_PEM: &str = include_str!("../../../fixtures/pki/client1.pem");
 const CLIENT1_KEY: &str = include_str!("../../../fixtures/pki/client1.key");
+/// leaf issued by an intermediate CA under CCA1, followed by that intermediate
+const CLIENT3_CHAIN_PEM: &str = include_str!("../../../fixtures/pki/client3.pem");
+const CLIENT3_KEY: &str = include_str!("../../../fixtures/pki/client3.key");
 const CLIENT2_PEM: &str = include_str!("../../../fixtures/pki/client2.pem");
 const CLIENT2_KEY: &str = include_str!("../../../fixtures/pki/client2.key");
 
@@ -147,6 +150,17 @@ fn case(rng: &mut Rng, ctx: &mut Ctx, c: Cfg, rep: u64) {
     // repetition 0 is the plain cell; later repetitions vary what must not matter: builder call
     // order, eager or lazy connect, and which non-matching name is configured
     let call_shape = if rep == 0 { crate::svc::Shape::Unary } else { *rng.pick(&crate::svc::SHAPES) };
+    // a valid client identity may be a chain (leaf + intermediate): the handler sees the whole chain
+    let chain_ident = rep > 0 && c.ident == Ident::Valid && rng.bool();
+    // how the server is assembled around its TLS configuration must not matter: a layer and/or a
+    // trace function added after `tls_config`
+    let srv_variant = if rep == 0 { 0 } else { rng.below(4) };
+    if chain_ident {
+        ctx.count("cfg.client_identity_chain");
+    }
+    if srv_variant != 0 {
+        ctx.count("cfg.server_layer_or_trace_fn");
+    }
     // `Endpoint::origin` changes the :authority the requests carry, never whom TLS authenticates
     let origin: Option<&'static str> = if rep == 0 { None } else { *rng.pick(&[None, None, Some("https://verif.test"), Some("https://other.test"), Some("http://verif.test:80")]) };
     let (server_order, client_order, lazy_connect, wrong_name) = if rep == 0 {
@@ -192,16 +206,45 @@ fn case(rng: &mut Rng, ctx: &mut Ctx, c: Cfg, rep: u64) {
                     },
                 };
             }
-            let router = Server::builder().tls_config(tls).map_err(|e| format!("server tls_config: {}", e))?.add_service(VerifServer::new(h2));
+            let sb = Server::builder().tls_config(tls).map_err(|e| format!("server tls_config: {}", e))?;
             let (tx, rx) = mpsc::unbounded_channel();
             tokio::spawn(async move {
                 while let Some(p) = raw_rx.recv().await {
                     let _ = tx.send(Ok::<_, std::io::Error>(p));
                 }
             });
-            tokio::spawn(async move {
-                let _ = router.serve_with_incoming(crate::props::c14::Incoming(rx)).await;
-            })
+            let inc = crate::props::c14::Incoming(rx);
+            let svc = VerifServer::new(h2);
+            match srv_variant {
+                0 => {
+                    let mut sb = sb;
+                    let router = sb.add_service(svc);
+                    tokio::spawn(async move {
+                        let _ = router.serve_with_incoming(inc).await;
+                    })
+                }
+                1 => {
+                    let mut sb = sb.layer(tower::layer::util::Identity::new());
+                    let router = sb.add_service(svc);
+                    tokio::spawn(async move {
+                        let _ = router.serve_with_incoming(inc).await;
+                    })
+                }
+                2 => {
+                    let mut sb = sb.trace_fn(|_| tracing::Span::none());
+                    let router = sb.add_service(svc);
+                    tokio::spawn(async move {
+                        let _ = router.serve_with_incoming(inc).await;
+                    })
+                }
+                _ => {
+                    let mut sb = sb.trace_fn(|_| tracing::Span::none()).layer(tower::layer::util::Identity::new());
+                    let router = sb.add_service(svc);
+                    tokio::spawn(async move {
+                        let _ = router.serve_with_incoming(inc).await;
+                    })
+                }
+            }
         } else {
             // harness-side acceptor with the requested ALPN; the accepted TLS streams are served by tonic
             let acceptor = tokio_rustls::TlsAcceptor::from(server_config(c.alpn, c.auth));
@@ -258,6 +301,7 @@ fn case(rng: &mut Rng, ctx: &mut Ctx, c: Cfg, rep: u64) {
                 },
                 _ => match c.ident {
                     Ident::None => tls,
+                    Ident::Valid if chain_ident => tls.identity(Identity::from_pem(CLIENT3_CHAIN_PEM, CLIENT3_KEY)),
                     Ident::Valid => tls.identity(Identity::from_pem(CLIENT1_PEM, CLIENT1_KEY)),
                     Ident::OtherCa => tls.identity(Identity::from_pem(CLIENT2_PEM, CLIENT2_KEY)),
                 },
@@ -338,7 +382,7 @@ fn case(rng: &mut Rng, ctx: &mut Ctx, c: Cfg, rep: u64) {
     if ok {
         let log = handler.log("tls");
         let want = match (c.auth, c.ident) {
-            (ClientAuth::Required, Ident::Valid) | (ClientAuth::Optional, Ident::Valid) => Some(1),
+            (ClientAuth::Required, Ident::Valid) | (ClientAuth::Optional, Ident::Valid) => Some(if chain_ident { 2 } else { 1 }),
             _ => None,
         };
         if log.peer_certs != want {
